@@ -56,8 +56,8 @@ def plan(tier: str, seed: int) -> list[dict[str, Any]]:
     cases = [{"seed": common.sub_seed(seed, "c15", i) & 0x7FFFFFFF,
               "profile": profiles[i % len(profiles)], "scenario": scen[i % len(scen)]}
              for i in range(n)]
-    return [{"cases": c} for c in common.split_even(cases, common.NCPU * (1 if tier == "quick"
-                                                                          else 4))]
+    return [{"cases": c, "idx": i} for i, c in enumerate(
+        common.split_even(cases, common.NCPU * (1 if tier == "quick" else 4)))]
 
 
 def edits(name: str, rng: Any) -> list[str]:
@@ -518,7 +518,99 @@ def check_case(case: dict[str, Any], col: common.Collector) -> None:
               "ops": ps.node_kinds(spec)})
 
 
+def sizeparam_cases(col: common.Collector) -> None:
+    """Size parameters are named inputs too: a small symbolic program is generated once with
+    harmless names; every (non-reserved) name the generator invented for it -- loop
+    variables, accumulators, temporaries -- and names given by PrefixNamed / Named tags are
+    then used AS the size parameter's name (feedback scenario for size parameters)."""
+    import pytato as pt
+    from pytato.tags import ImplStored, Named, PrefixNamed
+    from vf.exec import ctarget
+
+    def program(nm: str, tag: Any = None) -> tuple[Any, dict[str, Any]]:
+        n = pt.make_size_param(nm)
+        x = pt.make_placeholder("x", (n, 3), np.float64)
+        t = (2 * x).tagged(ImplStored())
+        if tag is not None:
+            t = t.tagged(tag)
+        return pt.make_dict_of_named_arrays({"out": pt.roll(t, 1, axis=1) + 1,
+                                             "red": pt.sum(t, axis=1)}), {"n": n, "x": x}
+
+    def names_of(bp: Any) -> dict[str, set[str]]:
+        try:
+            _c, t2 = ctarget.gen_c(bp.program)
+        except Exception:  # noqa: BLE001
+            t2 = None
+        return kernel_names(bp, t2)
+    try:
+        bp0 = ctarget.generate(program("n")[0])
+    except Exception as e:  # noqa: BLE001
+        col.histo("sizeparam_baseline_failed", type(e).__name__)
+        return
+    kn0 = names_of(bp0)
+    invented = sorted({v for k, vs in kn0.items() for v in vs}
+                      - {"n", "x", "out", "red"})
+    cands = [("generated:" + ("reserved" if g.startswith("_pt_") else "legal"), g, None)
+             for g in invented if g.isidentifier()]
+    cands += [("prefixnamed", "n", PrefixNamed("n")), ("prefixnamed", "tmp", PrefixNamed("tmp")),
+              ("named", "n", Named("n"))]
+    xv = np.arange(6.0).reshape(2, 3)
+    want = {"out": np.roll(2 * xv, 1, axis=1) + 1, "red": (2 * xv).sum(axis=1)}
+    for kind, nm, tag in cands:
+        wit = {"sizeparam_name": nm, "kind": kind, "tag": repr(tag)}
+        col.count("mon.sizeparam_names")
+        try:
+            g, _ = program(nm, tag)
+            bp = ctarget.generate(g)
+        except Exception as e:  # noqa: BLE001
+            if kind.endswith("reserved") or kind == "named" or \
+                    (isinstance(e, ctarget.CodegenFailure) and isinstance(e.exc, ValueError)
+                     and "conflict" in str(e.exc)):
+                col.histo("sizeparam_outcome", f"{kind}:error")
+                continue
+            col.violation(f"C15:sizeparam:codegen-fails:{kind}",
+                          f"size parameter named {nm!r}: {type(e).__name__}: {str(e)[:140]}", wit)
+            continue
+        kn = names_of(bp)
+        spaces = ["args", "temps", "inames", "substs"]
+        clash = [(a, b2) for i, a in enumerate(spaces) for b2 in spaces[i + 1:]
+                 if kn[a] & kn[b2]]
+        if nm not in kn["args"]:
+            col.violation(f"C15:sizeparam:not-an-argument:{kind}",
+                          f"size parameter {nm!r} is not a kernel argument of that name", wit)
+        if clash or (nm in kn["temps"] | kn["inames"] | kn["substs"]):
+            col.violation(f"C15:sizeparam:name-reused:{kind}",
+                          f"size parameter name {nm!r} also names another kernel entity "
+                          f"(name spaces sharing names: {clash})", wit)
+            continue
+        if kind.endswith("reserved"):
+            col.histo("sizeparam_outcome", f"{kind}:kept-distinct")
+        try:
+            cp = ctarget.compile_program(bp)
+            rr = ctarget.run(cp, bp, {"x": xv, nm: 2})
+            for k, w in want.items():
+                if not np.array_equal(rr.outputs[k], w):
+                    col.violation(f"C15:sizeparam:value:{kind}",
+                                  f"size parameter named {nm!r}: output {k} = "
+                                  f"{rr.outputs[k].tolist()} instead of {w.tolist()}", wit)
+                    break
+            else:
+                col.histo("sizeparam_outcome", f"{kind}:ok")
+        except ctarget.CodegenFailure as f:
+            col.violation(f"C15:sizeparam:later-stage-fails:{kind}:{f.stage}",
+                          f"size parameter named {nm!r}: generate_loopy succeeded, {f.stage} "
+                          f"fails: {str(f.exc)[:120] if f.exc else f.detail[-160:]}", wit)
+        except Exception as e:  # noqa: BLE001
+            col.violation(f"C15:sizeparam:run-fails:{kind}:{type(e).__name__}", str(e)[:140], wit)
+
+
 def run_shard(shard: dict[str, Any], col: common.Collector) -> None:
+    if shard.get("idx", 0) == 0:
+        try:
+            with common.time_limit(300):
+                sizeparam_cases(col)
+        except common.Timeout:
+            col.count("program_timeouts")
     for case in shard["cases"]:
         try:
             with common.time_limit(90):
